@@ -318,6 +318,26 @@ pub fn sdes_spaces(tier: Tier, seed: u64) -> Vec<CfgSpace> {
     // one chunk with every number of items 0..=dense_bound (item types cycling through CNAME..PRIV, value lengths
     // cycling through the residues), alone / followed by a small second chunk and padded
     let nd = dense_bound(tier) as u64 + 1;
+    // a value that contains every character U+0001..=U+07FF (all one- and two-byte characters) once, in the middle
+    // and at the end; as a CNAME and as a PRIV value with that same character as its prefix
+    v.push(CfgSpace::new("sdes-value-with-every-character", 0x7FF * 3, move |idx| {
+        let ch = char::from_u32((idx % 0x7FF) as u32 + 1).unwrap();
+        let text = match idx / 0x7FF {
+            0 => format!("ab{}cd", ch),
+            1 => format!("abc{}", ch),
+            _ => format!("{}", ch),
+        };
+        let items = if idx / 0x7FF == 2 { vec![Item::priv_(text.as_bytes(), text.as_bytes()), Item::new(1, text.as_bytes())] } else { vec![Item::new(1, text.as_bytes())] };
+        Pkt::Sdes { chunks: vec![Chunk { ssrc: 0x0506_0708, items }], pad: 0 }
+    }));
+    // chunks x items: 1..=31 chunks of 0..=80 items each (the totals - items over all chunks, bytes - range over
+    // many values that no single count reaches alone)
+    v.push(CfgSpace::new("sdes-chunks-x-items", 31 * 81, move |idx| {
+        let c = (idx % 31) as usize + 1;
+        let n = (idx / 31) as usize;
+        let chunks = (0..c).map(|k| Chunk { ssrc: 0x0100_0000 * (k as u32 + 1) + n as u32, items: (0..n).map(|i| sdes_item_kind(((i + k) % 8) as u64, (i + k + n) % 5, (i * 31 + k) as u64 ^ idx).unwrap()).collect() }).collect();
+        Pkt::Sdes { chunks, pad: if idx % 7 == 0 { 4 } else { 0 } }
+    }));
     v.push(CfgSpace::new("sdes-every-item-count", nd * 2, move |idx| {
         let n = (idx / 2) as usize;
         let second = idx % 2 == 1;
@@ -570,6 +590,11 @@ pub fn bye_spaces(_tier: Tier, seed: u64) -> Vec<CfgSpace> {
     // the last byte of the reason against the reason's length: every length 1..=126 x every last byte 1..=127 (the
     // byte that ends the packet when 1 + len is a multiple of 4 may equal the tail length, a plausible padding count,
     // the length byte itself ... - content that looks like structure), without / with one source
+    CfgSpace::new("bye-reason-with-every-character", 0x7FF * 2, move |idx| {
+        let ch = char::from_u32((idx % 0x7FF) as u32 + 1).unwrap();
+        let reason = if idx / 0x7FF == 0 { format!("ab{}cd", ch) } else { format!("{}", ch) };
+        Pkt::Bye { ssrcs: vec![0x0C00_0002], reason, pad: 0 }
+    }),
     CfgSpace::new("bye-reason-length-x-last-byte", 126 * 127 * 2, move |idx| {
         let len = (idx % 126) as usize + 1;
         let last = ((idx / 126) % 127) as u8 + 1;
@@ -676,6 +701,19 @@ pub fn app_spaces(tier: Tier, _seed: u64) -> Vec<CfgSpace> {
             let data: Vec<u8> = (0..n).map(|i| (i as u64 * 13 + idx) as u8).collect();
             Pkt::App { ssrc: 0x0A0B_0C0D, subtype: 31, name: "big".to_string(), data, pad }
         }),
+        // names with every ASCII character 0..=127 at each of the four positions, and as the only character
+        CfgSpace::new("app-name-every-character", 128 * 5, move |idx| {
+            let ch = (idx % 128) as u8 as char;
+            let mut name: Vec<char> = "name".chars().collect();
+            let name: String = match idx / 128 {
+                4 => ch.to_string(),
+                k => {
+                    name[k as usize] = ch;
+                    name.into_iter().collect()
+                }
+            };
+            Pkt::App { ssrc: 0x0A0B_0C0D, subtype: 2, name, data: vec![1, 2, 3, 4], pad: 0 }
+        }),
         // the last payload byte (the packet's last byte when there is no padding): every value x a few sizes
         CfgSpace::new("app-last-payload-byte", 256 * 6, move |idx| {
             let n = [4usize, 8, 12, 16, 252, 256][(idx / 256) as usize];
@@ -708,7 +746,7 @@ pub const FB_WRAPS: u64 = 96;
 pub fn nack_spaces(tier: Tier, _seed: u64) -> Vec<CfgSpace> {
     let mut v = Vec::new();
     let w = tier.pick(18u32, 22u32);
-    let bases: Vec<u16> = vec![0, 0x1234, (65536 - w as u32 + 0) as u16, 0xFFEE];
+    let bases: Vec<u16> = vec![0, 0x1234, (65536 - w as u32 + 0) as u16, 0xFFEE, 0x7FF6];
     let nb = bases.len() as u64;
     let pads: Vec<u8> = vec![0, 4];
     v.push(CfgSpace::new(&format!("nack-subsets-of-{}-window", w), (1u64 << w) * nb * 2, move |idx| {
@@ -751,10 +789,22 @@ pub fn nack_spaces(tier: Tier, _seed: u64) -> Vec<CfgSpace> {
         Pkt::Fb { kind: Kind::Transport, sender: 0x5E4D_3C2B, media: 0x1A2B_3C4D, fci: Fci::Nack(seqs), pad: if idx % 7 == 3 { 4 } else { 0 } }
     }));
     let gaps: [u32; 9] = [1, 8, 16, 17, 18, 25, 33, 34, 35];
-    v.push(CfgSpace::new("nack-four-numbers-selected-gaps", 9 * 9 * 9, move |idx| {
-        let (d1, d2, d3) = (gaps[(idx % 9) as usize], gaps[((idx / 9) % 9) as usize], gaps[(idx / 81) as usize]);
-        let a = 0x2000u32;
+    v.push(CfgSpace::new("nack-four-numbers-selected-gaps", 9 * 9 * 9 * 4, move |idx| {
+        let (d1, d2, d3) = (gaps[(idx % 9) as usize], gaps[((idx / 9) % 9) as usize], gaps[((idx / 81) % 9) as usize]);
+        // from an ordinary base, across 0x8000 (where a signed 16-bit difference changes sign), across the wrap
+        let a = [0x2000u32, 0x7FF0, 0x7FC0, 0xFFD0][(idx / 729) as usize];
         Pkt::Fb { kind: Kind::Transport, sender: 0x5E4D_3C2B, media: 0x1A2B_3C4D, fci: Fci::Nack(vec![(a + d1 + d2 + d3) as u16, a as u16, (a + d1 + d2) as u16, (a + d1) as u16]), pad: 0 }
+    }));
+    // two clusters of two numbers each, every distance class between the clusters (small, just under / at / just
+    // over half the number space, nearly all of it), the clusters added in both orders
+    let far: [u32; 12] = [40, 1000, 32_700, 32_750, 32_767, 32_768, 32_769, 32_800, 40_000, 65_000, 65_500, 65_530];
+    v.push(CfgSpace::new("nack-two-clusters-at-far-distances", 12 * 8 * 2, move |idx| {
+        let d = far[(idx % 12) as usize];
+        let a = [0u32, 5, 100, 0x7F00, 0x8000, 0xC000, 0xFFF0, 0xFFFF][((idx / 12) % 8) as usize];
+        let c1 = [a as u16, (a + 3) as u16];
+        let c2 = [(a + d) as u16, (a + d + 2) as u16];
+        let seqs = if idx / 96 == 0 { vec![c1[0], c1[1], c2[0], c2[1]] } else { vec![c2[0], c2[1], c1[0], c1[1]] };
+        Pkt::Fb { kind: Kind::Transport, sender: 0x5E4D_3C2B, media: 0x1A2B_3C4D, fci: Fci::Nack(seqs), pad: 0 }
     }));
     // pairs and triples at every power-of-two distance (wrap-around of the 16-bit difference)
     let w16 = u16_walk();
@@ -1078,6 +1128,21 @@ pub fn fb_spaces(tier: Tier, seed: u64) -> Vec<CfgSpace> {
     v.extend(pli_spaces(tier, seed));
     v.extend(fb_large_spaces());
     v.extend(fb_dense_spaces(tier));
+    // SSRCs that coincide: sender = media, a FIR entry about the sender / the media source / 0 / all ones, two FIR
+    // entries that differ in one byte only
+    v.push(CfgSpace::new("fb-coinciding-ssrcs", 6 * 6 * 5, move |idx| {
+        let vals = [0u32, 0xFFFF_FFFF, 0x0102_0304, 0x0102_0305, 0x8000_0000, 0x0000_0100];
+        let sender = vals[(idx % 6) as usize];
+        let media = vals[((idx / 6) % 6) as usize];
+        let fci = match idx / 36 {
+            0 => Fci::Fir(vec![(sender, 1), (media, 2), (0, 3)]),
+            1 => Fci::Fir(vec![(0x0102_0304, 9), (0x0102_0305, 9), (0x0103_0304, 9), (0x0202_0304, 9)]),
+            2 => Fci::Nack(vec![sender as u16, media as u16, (sender >> 16) as u16]),
+            3 => Fci::Sli(vec![((sender & 0x1FFF) as u16, (media & 0x1FFF) as u16, (sender & 0x3F) as u8)]),
+            _ => Fci::Pli,
+        };
+        Pkt::Fb { kind: fci.kind(), sender, media, fci, pad: 0 }
+    }));
     v.extend(fb_pattern_spaces());
     v.push(fir_many_then_readd_space());
     v.push(nack_dense_run_space());
